@@ -1,7 +1,12 @@
 """C17: hostile peer or controller input cannot wedge or derail the stack  (fault_enumeration).
 
 (M) specs/Stack/Robust.tla model-checked by TLC: per channel every sequence of <= 3 (quick) / <= 4
-    (thorough) fault classes followed by the reference request (probe) of that channel.
+    (thorough) fault classes followed by the reference request (probe) of that channel: the complete
+    transaction a user relies on, run to its end on the same connection.
+    Besides mutations of valid PDUs the classes include three made of WELL-FORMED PDUs only: "extreme"
+    (a numeric field at 0 / 1 / max, enumerated from the field layout, followed by normal use of what was
+    negotiated), "out_of_phase" (every PDU type of the protocol outside a transaction / in the wrong phase)
+    and "advance" (the next in-order step of the reference transaction: the phase in which a fault arrives).
 (A) spec -> code: the class sequences of TLC's state graph are replayed with concrete bytes (valid PDUs
     built with bumble's own classes, mutated by a seeded mutator; structured faults) on real connections
     between two real Device/Host/Controller stacks (lib.rig.Net), each injected unit under a watchdog
@@ -26,6 +31,13 @@ LEVEL = "fault_enumeration"
 CHANNELS = ["att", "smp", "le_sig", "classic_sig", "sdp", "rfcomm", "hfp_ag", "hfp_hf", "avdtp", "avctp", "le_coc", "hci"]
 INVARIANTS = ["TypeOK", "AliveUnlessDisconnected", "OnlyOnOpenChannel", "ProbeStartsClean", "EndsAnswered"]
 WORKERS = max(2, min(12, (os.cpu_count() or 4) - 2))
+QUICK_CAP = 200  # quick tier: at most that many instances of an enumerated class per channel and shape (every list is shorter today)
+
+
+def core_report(rep):
+    from lib import core
+
+    return core.Report(rep.prop, rep.level)
 
 
 def _cfg(ctx, name, spec, channels, maxfaults, skeleton, extra_invariants=()):
@@ -44,7 +56,7 @@ def model_check(ctx, rep, maxfaults, channels=CHANNELS):
     res = tlc.mc(ctx.spec("Stack", "Robust.tla"), cfg, workers=8)
     if res["violation"]:
         raise tlc.TlcError(f"Robust.tla violates {res['violation']} in the model itself")
-    tlc.require_actions(res, ["InjectClass", "DoneObs", "AliveObs", "Reopen", "Probe", "ProbeReply"], "Robust")
+    tlc.require_actions(res, ["InjectAny", "DoneObs", "AliveObs", "Reopen", "Abandon", "Probe", "ProbeReply"], "Robust")
     rep.add_mc("Stack/Robust.tla", res, {"Channels": channels, "MaxFaults": maxfaults, "StepBudget": R.STEP_BUDGET, "Skeleton": False})
     return res
 
@@ -55,7 +67,7 @@ _SEQ = re.compile(r'<<\s*"SEQ",\s*"(\w+)",\s*<<(.*?)>>\s*>>', re.S)
 def _emit_one(args):
     """TLC run with Skeleton = TRUE and the printing 'invariant' EmitSequences: -> ({channel: [seq]}, states, transitions)"""
     spec, cfg = args
-    res = tlc.mc(spec, cfg, workers=1, coverage=False)
+    res = tlc.mc(spec, cfg, workers=6, coverage=False)
     if res["violation"]:
         raise tlc.TlcError(f"Robust.tla (skeleton) violates {res['violation']}")
     seqs = {}
@@ -79,16 +91,16 @@ def enumerate_sequences(ctx, rep, maxfaults, channels=CHANNELS):
         seqs = {c: [tuple(s) for s in v] for c, v in d["seqs"].items()}
         rep.extra["sequence_graph"] = {"states": d["states"], "transitions": d["transitions"], "cached": True}
         return seqs
-    jobs = []
-    for c in channels:
-        cfg, _ = _cfg(ctx, f"robust_skel_{c}_{maxfaults}.cfg", "Spec", [c], maxfaults, True, extra_invariants=["EmitSequences"])
-        jobs.append((ctx.spec("Stack", "Robust.tla"), cfg))
-    seqs, states, trans = {}, 0, 0
-    with multiprocessing.get_context("fork").Pool(min(6, len(jobs))) as pool:
-        for s, st, tr in pool.map(_emit_one, jobs):
-            seqs.update(s)
-            states += st
-            trans += tr
+    # one TLC run over all channels (several workers: the printed lines come in any order, which does not matter;
+    # a garbled line would name a class the channel does not have, checked below)
+    cfg, _ = _cfg(ctx, f"robust_skel_{maxfaults}.cfg", "Spec", channels, maxfaults, True, extra_invariants=["EmitSequences"])
+    seqs, states, trans = _emit_one((ctx.spec("Stack", "Robust.tla"), cfg))
+    from lib import c17_rigs
+
+    for c, lst in seqs.items():
+        for sq in lst:
+            if c not in c17_rigs.RIGS or any(k not in c17_rigs.RIGS[c].classes for k in sq) or len(sq) > maxfaults:
+                raise tlc.TlcError(f"sequence {c}/{sq} printed by TLC is not made of the classes of that channel")
     for c in channels:
         if c not in seqs or () not in seqs[c] or len(seqs[c]) < 10:
             raise tlc.TlcError(f"state graph of Robust.tla yields no usable class sequences for channel {c}")
@@ -102,15 +114,20 @@ def enumerate_sequences(ctx, rep, maxfaults, channels=CHANNELS):
 
 # ----------------------------------------------------------------------------- (A) execution
 def _init_worker():
+    import gc
     import logging
 
     logging.disable(logging.CRITICAL)
     warnings.simplefilter("ignore")
+    # what the parent had allocated (the sequences, the job list) is not garbage of this worker: keep the collector off it,
+    # a full collection in a forked child copies every page it touches, CPU time that the per-unit budget would count
+    gc.freeze()
 
 
 def _work(job):
-    channel, seq, seed, units = job
-    return R.run_sequence(channel, tuple(seq), seed, units=units)
+    channel, seq, seed, units = job[:4]
+    variants = job[4] if len(job) > 4 else None
+    return R.run_sequence(channel, tuple(seq), seed, units=units, variants=variants)
 
 
 def execute(jobs, workers=WORKERS):
@@ -146,6 +163,53 @@ def select(ctx, seqs, max_injections, rounds=1, full_len=2):
     return jobs, len(longer) - len(extra)
 
 
+def systematic(ctx, seqs, cap=None):
+    """the enumerated classes (well-formed PDUs only), every instance of each, in every phase of the reference
+    transaction:  (extreme[i]),  (out_of_phase[i]);  on channels with a multi-step reference transaction also
+    (advance, x[i]) and (advance, advance, x[i]) for x = out_of_phase (a valid PDU after the request / after the second
+    step) and for the instances of extreme that do not themselves start the transaction, and (extreme[i], advance,
+    advance) for those that do (negotiate with the boundary value, then carry the transaction on).  Every sequence
+    must be one TLC enumerated.  cap: at most that many instances per (channel, class, shape), an evenly spaced
+    seeded selection (quick tier; None = all)."""
+    import random
+
+    from lib import c17_rigs
+
+    jobs = []
+    counts = {}
+    for c in CHANNELS:
+        rg = c17_rigs.RIGS[c](random.Random(0))
+        known = set(seqs[c])
+        flav = list(range(len(rg.instances("advance")))) if rg.phased else []
+        for cls in c17_rigs.STRUCTURED:
+            inst = rg.instances(cls)
+            counts[f"{c}/{cls}"] = len(inst)
+            shapes = [((), None)]
+            if rg.phased:
+                for f in flav:
+                    shapes.append((("advance",), f))
+                    shapes.append((("advance", "advance"), f))
+            for prefix, f in shapes:
+                idx = [i for i, (_, _, cont) in enumerate(inst) if not (prefix and cont)]
+                if cap is not None and len(idx) > cap:
+                    off = ctx.rng.randrange(len(idx))
+                    idx = sorted({idx[(off + (k * len(idx)) // cap) % len(idx)] for k in range(cap)})
+                for i in idx:
+                    seq = prefix + (cls,)
+                    if seq not in known:
+                        raise tlc.TlcError(f"systematic sequence {c}/{seq} is not one of TLC's sequences")
+                    variants = [f] + [None] * (len(prefix) - 1) + [i] if prefix else [i]
+                    jobs.append((c, seq, R.seq_seed(ctx.seed, c, seq, 1000 + i), None, variants))
+            if rg.phased and cls == "extreme":
+                seq = ("extreme", "advance", "advance")
+                if seq not in known:
+                    raise tlc.TlcError(f"systematic sequence {c}/{seq} is not one of TLC's sequences")
+                for i, (_, _, cont) in enumerate(inst):
+                    if cont:
+                        jobs.append((c, seq, R.seq_seed(ctx.seed, c, seq, 1000 + i), None, [i, None, None]))
+    return jobs, counts
+
+
 # ----------------------------------------------------------------------------- (B) validation + verdicts
 def validate(ctx, rep, results, maxfaults, batch=6000):
     """-> list of (result, verdict) for rejected traces"""
@@ -162,11 +226,10 @@ def validate(ctx, rep, results, maxfaults, batch=6000):
 
 
 def _culprit(r, known, cache):
-    """smallest sub-sequence of the injected units (same bytes, fresh rig) after which the probe / reopen still fails"""
+    """smallest sub-sequence of the injected units (same bytes, fresh rig) after which the probe / reopen still fails
+    in the same part of the probe; () = it fails with nothing injected at all.  -> indices into r["seq"]"""
     seq, units = r["seq"], r["units"]
     n = len(seq)
-    if n <= 1:
-        return tuple(seq)
     import itertools
 
     def fails(idx):
@@ -174,16 +237,22 @@ def _culprit(r, known, cache):
         if key not in cache:
             res = R.run_sequence(r["channel"], tuple(seq[i] for i in idx), r["seed"], units=[units[i] for i in idx])
             last = res["trace"][-1]
-            cache[key] = last["e"] in ("probe_ok", "reopen") and not last["ok"]
-        return cache[key]
+            cache[key] = (last["e"] in ("probe_ok", "reopen") and not last["ok"], res["stage"])
+        return cache[key][0] and cache[key][1] == r["stage"]
 
-    for k in range(1, n):
+    for k in range(0, n):
         combos = list(itertools.combinations(range(n), k))
         combos.sort(key=lambda idx: (0 if any((r["channel"], seq[i]) in known for i in idx) else 1, idx))
         for idx in combos:
             if fails(idx):
-                return tuple(seq[i] for i in idx)
-    return tuple(seq)
+                return tuple(idx)
+    return tuple(range(n))
+
+
+def _named(r, i):
+    """class of the i-th unit, with the name of the instance for the enumerated classes (that is the input that matters)"""
+    lab = (r.get("labels") or [""] * len(r["seq"]))[i]
+    return f"{r['seq'][i]}[{lab}]" if lab else r["seq"][i]
 
 
 def report(ctx, rep, rejected):
@@ -196,10 +265,11 @@ def report(ctx, rep, rejected):
         ch = r["channel"]
         # class of the unit the rejected event belongs to
         k = sum(1 for x in tr[:l] if x["e"] == "inject")
-        cls = r["seq"][k - 1] if k else "-"
+        cls = _named(r, k - 1) if k else "-"
         replay = {"channel": ch, "seq": r["seq"], "seed": r["seed"], "units": r["units"], "rejected_event": l, "event": e,
-                  "why": r["why"], "first_exception": r["first_exc"]}
-        bytes_txt = "; ".join(f"{c}: " + " ".join(f"{t}={h[:80]}{'..' if len(h) > 80 else ''}" for t, h in u) for c, u in zip(r["seq"], r["units"]))
+                  "why": r["why"], "first_exception": r["first_exc"], "labels": r.get("labels"), "stage": r.get("stage", "")}
+        bytes_txt = "; ".join(f"{_named(r, i)}: " + " ".join(f"{t}={h[:80]}{'..' if len(h) > 80 else ''}" for t, h in u)
+                              for i, u in enumerate(r["units"]))
         if e["e"] == "done":
             sig = f"{ch}:{cls}:done:{e['outcome']}" if e["outcome"] in ("recursion", "busy", "timeout") else f"{ch}:{cls}:done:steps"
             summary = f"{ch}: processing an injected unit of class {cls} did not end properly: {r['why'] or e}. Injected: {bytes_txt}"
@@ -207,15 +277,18 @@ def report(ctx, rep, rejected):
             sig = f"{ch}:{cls}:connection-lost"
             summary = f"{ch}: after a unit of class {cls} that is not a valid disconnect the connection is gone from Device.connections. Injected: {bytes_txt}"
         elif e["e"] in ("probe_ok", "reopen"):
-            cu = _culprit(r, known, cache)
-            for c in cu:
-                known.add((ch, c))
+            ci = _culprit(r, known, cache)
+            cu = [_named(r, i) for i in ci]
+            for i in ci:
+                known.add((ch, r["seq"][i]))
             what = "probe" if e["e"] == "probe_ok" else "reopen"
+            if what == "probe" and r.get("stage"):
+                what += f"[{r['stage']}]"
             sig = f"{ch}:{what}:{'+'.join(cu) if cu else 'baseline'}"
-            summary = (f"{ch}: after injecting [{', '.join(r['seq'])}] (smallest failing part: [{', '.join(cu)}]) "
-                       f"{'the reference request is not answered correctly' if what == 'probe' else 'the channel cannot be opened again'}: {r['why']}"
+            summary = (f"{ch}: after injecting [{', '.join(_named(r, i) for i in range(len(r['seq'])))}] (smallest failing part: [{', '.join(cu)}]) "
+                       f"{'the reference transaction does not complete correctly' if e['e'] == 'probe_ok' else 'the channel cannot be opened again'}: {r['why']}"
                        f"{' (first exception raised: ' + r['first_exc'] + ')' if r['first_exc'] else ''}. Injected: {bytes_txt}")
-            replay["culprit"] = list(cu)
+            replay["culprit"] = cu
         else:
             sig = f"{ch}:{e['e']}:rejected"
             summary = f"{ch}: trace rejected at event {l} {e}: {r['why']}; spec state {v[3] if len(v) > 3 else ''}. Injected: {bytes_txt}"
@@ -229,7 +302,7 @@ def account(rep, results):
     for r in results:
         rep.traces += 1
         obs = tuple((e["e"], e["cls"], e["outcome"], e["conn"], e["open"], e["ok"]) for e in r["trace"])
-        rep.case((r["channel"], obs), nontrivial=len(r["seq"]) > 0,
+        rep.case((r["channel"], obs, tuple(r.get("labels") or ())), nontrivial=len(r["seq"]) > 0,
                  sample={"channel": r["channel"], "classes": r["seq"], "events": [e["e"] + (":" + e["outcome"] if e["outcome"] else "") for e in r["trace"]],
                          "first_unit": r["units"][0][0][1][:64] if r["units"] and r["units"][0] else ""} if len(r["seq"]) == 2 else None)
         for e in r["trace"]:
@@ -245,24 +318,42 @@ def account(rep, results):
 # ----------------------------------------------------------------------------- entry points
 def run(ctx, rep):
     rep.rule = ("one execution per class sequence of TLC's state graph of Robust.tla (channel x <= MaxFaults fault classes x probe), bytes drawn by a seeded "
-                "mutator from valid PDUs built with bumble's classes; every execution traced and validated by RobustTrace.tla; distinct = distinct "
-                "(channel, observed event sequence incl. classes and outcomes)")
-    rep.assumptions = ["the byte space is sampled (seeded mutations of valid PDUs, structured faults); exhaustive are the fault classes x channels x probe, and all class sequences up to length 2 (quick) / 3 (thorough)",
+                "mutator from valid PDUs built with bumble's classes, plus one execution per listed instance of the enumerated classes (extreme: every numeric "
+                "field of the protocol's PDUs at 0 / 1 / max followed by normal use of what was negotiated; out_of_phase: every PDU type outside a transaction) "
+                "in every phase of the reference transaction (after 0 / 1 / 2 in-order steps); every execution traced and validated by RobustTrace.tla; "
+                "distinct = distinct (channel, observed event sequence incl. classes, instance names and outcomes)")
+    rep.assumptions = ["the byte space is sampled (seeded mutations of valid PDUs, structured faults); exhaustive are the fault classes x channels x probe, all class sequences up to length 2 (quick) / 3 (thorough), and the listed instances of the classes made of well-formed PDUs (quick: at most 200 per channel, class and phase: all of them today)",
+                       "the reference request is the complete transaction of the channel (pairing legacy + Secure Connections with keys on both sides; read + write + notification; a new DLC / L2CAP channel opened, data both ways, closed; full AT exchange; SDP search with continuation; AVDTP stream configured and released), made by the attacking device's own stack where it needs one",
                        "the reference request is preceded by the channel's unit delimiter when the garbage ended inside a unit; on an LE credit based channel (no delimiter) the probe uses a fresh channel of the same SPSM",
+                       "a transaction the injected units started (read from their bytes: Pairing Request, Prepare Write, PN / SABM, Connection Request, Set Configuration) is abandoned by the peer the ordinary way (Pairing Failed, Execute Write cancel, DISC, Disconnection Request, Abort) before the reference request",
                        "a channel closed by the victim in a way its peer is told about is not a violation: it is opened again by the ordinary procedure, which must succeed",
                        "virtual-time event loop; the 2 s budget per injected unit is CPU time of the process (plus a 30 s wall-clock backstop for blocking code): the only clock dependence, and a time-out is a violation by itself"]
     maxfaults = 3 if ctx.quick else 4
-    model_check(ctx, rep, maxfaults)
-    seqs = enumerate_sequences(ctx, rep, maxfaults)
-    total = sum(len(v) for v in seqs.values())
-    if ctx.quick:
-        jobs, left = select(ctx, seqs, max_injections=5000, rounds=1, full_len=2)
-    else:
-        jobs, left = select(ctx, seqs, max_injections=200000, rounds=2, full_len=3)
-    rep.extra["sequences_enumerated"] = total
-    rep.extra["sequences_executed"] = len(jobs)
-    rep.extra["sequences_not_sampled"] = left
-    results = execute(jobs)
+    # (M) runs while the sequences are executed: it does not depend on them
+    import concurrent.futures
+
+    pool = concurrent.futures.ThreadPoolExecutor(1)
+    sub = core_report(rep)
+    mc_future = pool.submit(model_check, ctx, sub, maxfaults)
+    try:
+        seqs = enumerate_sequences(ctx, rep, maxfaults)
+        total = sum(len(v) for v in seqs.values())
+        if ctx.quick:
+            jobs, left = select(ctx, seqs, max_injections=7000, rounds=1, full_len=2)
+            sysjobs, counts = systematic(ctx, seqs, cap=QUICK_CAP)
+        else:
+            jobs, left = select(ctx, seqs, max_injections=320000, rounds=2, full_len=3)
+            sysjobs, counts = systematic(ctx, seqs, cap=None)
+        rep.extra["sequences_enumerated"] = total
+        rep.extra["sequences_executed"] = len(jobs) + len(sysjobs)
+        rep.extra["sequences_not_sampled"] = left
+        rep.extra["systematic_executions"] = len(sysjobs)
+        rep.extra["enumerated_instances"] = counts
+        results = execute(jobs + sysjobs)
+    finally:
+        mc_future.result()  # a failure of the model-checking run is a machinery failure
+        pool.shutdown()
+    rep.mc_runs += sub.mc_runs
     account(rep, results)
     # vacuity guards: every channel and every class of the model was instantiated, the baseline probe works
     seen = {(r["channel"], c) for r in results for c in r["seq"]}
@@ -272,6 +363,13 @@ def run(ctx, rep):
         for cls in c17_rigs.RIGS[c].classes:
             if (c, cls) not in seen:
                 raise tlc.TlcError(f"fault class {c}/{cls} of the harness does not occur in TLC's sequences (spec and harness disagree)")
+        if {s for s in seqs[c] if len(s) == 1} != {(cls,) for cls in c17_rigs.RIGS[c].classes}:
+            raise tlc.TlcError(f"the classes of channel {c} in Robust.tla and in the harness differ")
+    # ... and every listed instance of the enumerated classes was executed (quick: up to the cap per shape)
+    ran = {(r["channel"], cls, lab) for r in results for cls, lab in zip(r["seq"], r.get("labels") or ()) if lab and cls != "advance"}
+    rep.extra["enumerated_instances_executed"] = len(ran)
+    if len(ran) < (sum(min(n, QUICK_CAP) for n in counts.values()) if ctx.quick else sum(counts.values())):
+        raise tlc.TlcError(f"only {len(ran)} instances of the enumerated classes were executed, {counts} are listed")
     rejected = validate(ctx, rep, results, maxfaults)
     report(ctx, rep, rejected)
     rep.exhaustive = False
